@@ -1064,7 +1064,7 @@ func ColumnDefault(c *schema.Column) (cty.Value, error) {
 				return cty.NilVal, err
 			}
 			return cty.StringVal(s), nil
-		case strings.ToLower(x.V) == "true", strings.ToLower(x.V) == "false":
+		case !textlike && (strings.ToLower(x.V) == "true" || strings.ToLower(x.V) == "false"):
 			return cty.BoolVal(strings.ToLower(x.V) == "true"), nil
 		case sqlx.IsLiteralNumber(x.V) && !textlike:
 			if strings.ContainsAny(x.V, ".eE") {
